@@ -260,7 +260,17 @@ func runC08(idx int, rng *rand.Rand, tier string) []Case {
 		ok := true
 		for i := 1; i <= clen; i++ {
 			chain[i] = rng.Intn(3)
-			out, err := runCLI(nil, "encode", "-to", formats[chain[i]], cur)
+			var out []byte
+			var err error
+			if rng.Intn(2) == 0 {
+				out, err = runCLI(nil, "encode", "-to", formats[chain[i]], cur)
+			} else {
+				// -output into a file that already exists and is longer than what will be written
+				dst := writeTemp(idx, fmt.Sprintf("dst%d", i), bytes.Repeat([]byte("stale content of an earlier, longer run\n"), 4000))
+				_, err = runCLI(nil, "encode", "-to", formats[chain[i]], "-output", dst, cur)
+				out, _ = os.ReadFile(dst)
+				os.Remove(dst)
+			}
 			os.Remove(cur)
 			if err != nil {
 				ok = false
@@ -317,6 +327,9 @@ func runC08(idx int, rng *rand.Rand, tier string) []Case {
 	}
 	if rng.Intn(3) == 0 { // first record different from the rest
 		rs[0].Headers, rs[0].Body, rs[0].Error = nil, nil, ""
+	}
+	if rng.Intn(5) == 0 { // a hit that failed before it had a target: no method, no URL
+		rs[0].Method, rs[0].URL, rs[0].Code, rs[0].Error = "", "", 0, "no targets to attack"
 	}
 	if idx%20 == 6 { // a first record far larger than any sniffing buffer
 		rs[0].Body = make([]byte, 140000+rng.Intn(80000))
